@@ -114,4 +114,73 @@ def dAddAssign (env : Env) (N : Nat) (sub : Bool) (dst a : DCt) : Outcome DCt :=
   withMeta (addCtAssign env dst.ct a.ct) fun m =>
     bind (glweNormalizeAssign N g1) fun g' => .ok ⟨g', m⟩
 
+/-! ## straight-line programs over a pool of ciphertexts with data (linear fragment) -/
+
+/-- the operations that have a data path here; `toOp` is the call of the metadata model -/
+inductive LOp where
+  | add (sub : Bool) (d a b : Nat)
+  | addAssign (sub : Bool) (d a : Nat)
+  | neg (d a : Nat)
+  | negAssign (d : Nat)
+  | mulPow2 (d a bits : Nat)
+  | mulPow2Assign (d bits : Nat)
+  | divPow2 (d a bits : Nat)
+  | divPow2Assign (d bits : Nat)
+  | rescale (d k a : Nat)
+  | rescaleAssign (d k : Nat)
+deriving Repr, DecidableEq
+
+/-- the API call as the metadata model sees it (`add` and `sub` have one metadata behaviour) -/
+def LOp.toOp : LOp → Op
+  | .add _ d a b => .addCt d a b
+  | .addAssign _ d a => .addCtAssign d a
+  | .neg d a => .neg d a
+  | .negAssign d => .negAssign d
+  | .mulPow2 d a bits => .mulPow2 d a bits
+  | .mulPow2Assign d bits => .mulPow2Assign d bits
+  | .divPow2 d a bits => .divPow2 d a bits
+  | .divPow2Assign d bits => .divPow2Assign d bits
+  | .rescale d k a => .rescale d k a
+  | .rescaleAssign d k => .rescaleAssign d k
+
+abbrev DPool := List DCt
+
+def DPool.cts (p : DPool) : Pool := p.map DCt.ct
+
+def dput (pool : DPool) (d : Nat) (r : Outcome DCt) : Outcome DPool :=
+  bind r fun c => .ok (pool.set d c)
+
+def dop1 (pool : DPool) (d : Nat) (f : DCt → Outcome DCt) : Outcome DPool :=
+  match pool[d]? with
+  | some cd => dput pool d (f cd)
+  | none => .err Err.badSlot.toString
+
+def dop2 (pool : DPool) (d a : Nat) (f : DCt → DCt → Outcome DCt) : Outcome DPool :=
+  match pool[d]?, pool[a]? with
+  | some cd, some ca => if d = a then .err Err.badSlot.toString else dput pool d (f cd ca)
+  | _, _ => .err Err.badSlot.toString
+
+def dop3 (pool : DPool) (d a b : Nat) (f : DCt → DCt → DCt → Outcome DCt) : Outcome DPool :=
+  match pool[d]?, pool[a]?, pool[b]? with
+  | some cd, some ca, some cb => if d = a ∨ d = b then .err Err.badSlot.toString else dput pool d (f cd ca cb)
+  | _, _, _ => .err Err.badSlot.toString
+
+/-- one call on the data pool -/
+def dstep (env : Env) (N : Nat) (pool : DPool) : LOp → Outcome DPool
+  | .add sub d a b => dop3 pool d a b (dAddInto env N sub)
+  | .addAssign sub d a => dop2 pool d a (dAddAssign env N sub)
+  | .neg d a => dop2 pool d a (dNegInto env N)
+  | .negAssign d => dop1 pool d (dNegAssign env N)
+  | .mulPow2 d a bits => dop2 pool d a (fun cd ca => dMulPow2Into env N cd ca bits)
+  | .mulPow2Assign d bits => dop1 pool d (fun cd => dMulPow2Assign env N cd bits)
+  | .divPow2 d a bits => dop2 pool d a (fun cd ca => dDivPow2Into env N cd ca bits)
+  | .divPow2Assign d bits => dop1 pool d (fun cd => dDivPow2Assign env N cd bits)
+  | .rescale d k a => dop2 pool d a (fun cd ca => dRescaleInto env N cd k ca)
+  | .rescaleAssign d k => dop1 pool d (fun cd => dRescaleAssign env N cd k)
+
+/-- a straight-line program, stopping at the first call that is not `Ok` -/
+def drun (env : Env) (N : Nat) : DPool → List LOp → Outcome DPool
+  | p, [] => .ok p
+  | p, op :: rest => bind (dstep env N p op) fun p' => drun env N p' rest
+
 end Ckks
